@@ -11,6 +11,7 @@ import (
 	"fmt"
 	"strings"
 	"sync"
+	"sync/atomic"
 	"time"
 
 	jsonrpc "github.com/filecoin-project/go-jsonrpc"
@@ -26,6 +27,7 @@ type Plan struct {
 	RevBoom  bool   `json:"rev_boom,omitempty"`  // additionally reverse-call a client-side handler that panics
 	RevSlow  bool   `json:"rev_slow,omitempty"`  // additionally reverse-call a client-side handler that blocks until released
 	RevAlias bool   `json:"rev_alias,omitempty"` // additionally reverse-call through a tagged field that resolves via a client-side alias
+	RevBurst int    `json:"rev_burst,omitempty"` // additionally make this many concurrent reverse calls with 1 MiB arguments and wait for all
 	ReactMs  int    `json:"react_ms,omitempty"`  // time the handler keeps running after its ctx was cancelled
 	Junk     string `json:"junk,omitempty"`      // ignored by the handler; inflates the request (longer decode window)
 
@@ -257,6 +259,32 @@ func (a *TokAPI) body(ctx context.Context, tok string, plan Plan) (Result, error
 			continue
 		}
 		revs = append(revs, id)
+	}
+	if plan.RevBurst > 0 {
+		if rc, ok := jsonrpc.ExtractReverseClient[RevClient](ctx); ok {
+			a.W.mu.Lock()
+			s.inReverse = true
+			a.W.mu.Unlock()
+			big := padFor(tok, 1<<20)
+			var wg sync.WaitGroup
+			var nerr int32
+			for i := 0; i < plan.RevBurst; i++ {
+				wg.Add(1)
+				go func() {
+					defer wg.Done()
+					if _, err := rc.Ident(ctx, big); err != nil {
+						atomic.AddInt32(&nerr, 1)
+					}
+				}()
+			}
+			wg.Wait()
+			a.W.mu.Lock()
+			s.inReverse = false
+			a.W.mu.Unlock()
+			revs = append(revs, fmt.Sprintf("burst:%d/%d", plan.RevBurst-int(nerr), plan.RevBurst))
+		} else {
+			revs = append(revs, "!absent")
+		}
 	}
 	if plan.RevAlias {
 		if rc, ok := jsonrpc.ExtractReverseClient[RevClient](ctx); ok {
